@@ -714,6 +714,16 @@ impl<'a> FnCtx<'a> {
                         self.deliver(&v, &t, env, ind, out)?;
                     }
                 }
+                Stmt::Item(Item::Const(c)) if self.ext => {
+                    // a local `const NAME: T = <literal expression>;`: an immutable `let`
+                    let (t, _) = ty_of_type(&c.ty);
+                    if t == Ty::Unknown { bail!("nested const of unknown type") }
+                    let v = self.expr(&c.expr, env)?;
+                    let vs = if v.untyped_lit { ann(&v.s, &t) } else { self.cast(&v, &t)? };
+                    self.flush(ind, out);
+                    out.lines.push(format!("{}let {} : {} := {}", ind, id(&c.ident.to_string()), t.lean(), vs));
+                    env.insert(c.ident.to_string(), t);
+                }
                 Stmt::Item(_) => bail!("nested item"),
                 Stmt::Macro(m) => {
                     let nme = path_str(&m.mac.path);
@@ -1236,14 +1246,17 @@ fn main() {
     }
     // dependency order
     let mut order: Vec<String> = Vec::new();
-    fn visit(n: &str, cx: &Ctx, wl: &[String], seen: &mut HashSet<String>, order: &mut Vec<String>) {
+    fn visit(n: &str, cx: &Ctx, wl: &[String], ext: &HashSet<String>, seen: &mut HashSet<String>, order: &mut Vec<String>) {
         if seen.contains(n) { return; } seen.insert(n.to_string());
         let mut calls = Vec::new(); collect_calls(&cx.fns[n].block, &mut calls);
-        for c in calls { if wl.contains(&c) && c != n { visit(&c, cx, wl, seen, order); } }
+        // a first-whitelist function never depends on the extension list: such a call can only sit in a statement the build
+        // under test drops (`#[cfg(feature = …)] return bid128_fma_tiny_after(..)`); were it live, the emitted call would
+        // precede its definition and the module would not compile
+        for c in calls { if wl.contains(&c) && c != n && !(ext.contains(&c) && !ext.contains(n)) { visit(&c, cx, wl, ext, seen, order); } }
         order.push(n.to_string());
     }
     let mut seen = HashSet::new();
-    for w in &whitelist { visit(w, &cx, &whitelist, &mut seen, &mut order); }
+    for w in &whitelist { visit(w, &cx, &whitelist, &ext_set, &mut seen, &mut order); }
 
     let mut bodies: [Vec<String>; 2] = [Vec::new(), Vec::new()];
     let mut translated: [BTreeMap<String, String>; 2] = [BTreeMap::new(), BTreeMap::new()];
